@@ -25,7 +25,7 @@ from concurrent.futures import ThreadPoolExecutor
 
 VERIF = os.path.dirname(os.path.dirname(os.path.abspath(__file__)))
 REPO = "/repo"
-WORK = "/root/scratch/mutscan"
+WORK = os.environ.get("MUTSCAN_WORK", "/root/scratch/mutscan")
 BASE = "f885753"      # the pinned snapshot the anchors' line numbers refer to
 PYTEST = ["/venv/bin/python", "-m", "pytest", "-q", "-p", "no:cacheprovider", "--timeout=300", "--continue-on-collection-errors", "-rA"]
 FILES = ["pyrepseq/nn.py", "pyrepseq/distance.py", "pyrepseq/stats.py", "pyrepseq/entropy.py", "pyrepseq/clustering.py", "pyrepseq/io.py",
@@ -244,7 +244,13 @@ def apply_mutant(src, m):
 def gen(nmax):
     os.makedirs(WORK, exist_ok=True)
     amap = anchor_map()
-    rng = random.Random(20260927)
+    rng = random.Random(int(os.environ.get("MUTSCAN_SEED", "20260927")))
+    # mutants of an earlier sample are not drawn again
+    seen = set()
+    for prev in os.environ.get("MUTSCAN_EXCLUDE", "").split(":"):
+        if prev and os.path.exists(prev):
+            for m_ in json.load(open(prev)):
+                seen.add((m_["file"], m_["line"], m_["op"], m_["after"]))
     allm = []
     for path in FILES:
         src = head_src(path)
@@ -267,6 +273,8 @@ def gen(nmax):
                 try:
                     ast.parse(apply_mutant(src, m))
                 except SyntaxError:
+                    continue
+                if (m["file"], m["line"], m["op"], m["after"]) in seen:
                     continue
                 allm.append(m)
     # deterministic sample, spread over functions and operators
